@@ -37,6 +37,7 @@ QUICK = [
     _k('periodic_storage', opt='periodic', kind='storage', T=4, eff=0.75),
     _k('periodic_transport', opt='periodic', kind='transport', T=4, eff=0.5),
     _k('periodic_plant', opt='periodic', kind='plant', T=4),
+    _k('coarse_contract_dst_days_q', opt='coarse', kind='contract', T=4, coarse='2d', freq=('d', '2021-03-27', '2021-03-31', 'CET')),
 ]
 THOROUGH = QUICK + [
     _k('coarse_contract_3h_T6', opt='coarse', kind='contract', T=6, coarse='3h', ec=True),
@@ -52,13 +53,15 @@ THOROUGH = QUICK + [
     _k('periodic_storage_dur_T8', opt='periodic', kind='storage', T=8, eff=0.75, duration='4h'),
     _k('periodic_contract_window', opt='periodic', kind='contract', T=6, win=(1, 5)),
     _k('periodic_take', opt='periodic', kind='take', T=4),
+    _k('coarse_contract_dst_days', opt='coarse', kind='contract', T=4, coarse='2d', freq=('d', '2021-03-27', '2021-03-31', 'CET')),
+    _k('coarse_transport_dst_days', opt='coarse', kind='transport', T=4, coarse='2d', eff=0.5, freq=('d', '2021-10-30', '2021-11-03', 'CET')),
 ]
 BOUNDS = dict(quick='%s; hourly (30-min) grids, T<=8, coarse 2h/3h, period 2h, duration 4h; wacc = 0' % [c[0] for c in QUICK],
               thorough='%s' % [c[0] for c in THOROUGH])
 OUTSIDE = ['wacc != 0 with coarse frequency (the coarse asset discounts a whole interval with its first minor step\'s factor)',
            'holding cost (cost_store) of a coarse storage (level is only tracked at coarse interval ends)',
            'anchored frequencies (W, MS) for coarse grids', 'irregular fine steps (C12)']
-ASSUMPTIONS = ['prices of a coarse interval are the plain mean over its minor steps (equals the dt-weighted mean on uniform grids)',
+ASSUMPTIONS = ['prices of a coarse interval are the plain mean over its minor steps ("as documented"; equals the dt-weighted mean on uniform grids) -- the reference prices the coarse asset that way',
                'bounds of merged periodic variables are the group mean (pinned by test_periodic_contract_max_capa)']
 
 
@@ -117,10 +120,14 @@ def structure(tg, a_opt, opt, coarse, period, duration):
     e = e if e is not None else tg.end
     active = [t for t in range(tg.T) if s <= tp[t] < e]
     if opt == 'coarse':
-        step = pd.Timedelta(coarse) if any(ch.isdigit() for ch in coarse) else pd.Timedelta(1, coarse)
+        # calendar-aware coarse raster anchored at the window start (a 2-day interval over a DST switch has 47 h)
+        pts = list(pd.date_range(start=s, end=e, freq=coarse, tz=tg.tz))
+        if not pts or pts[-1] < e:
+            pts.append(e)
         groups = {}
         for t in active:
-            groups.setdefault(int((tp[t] - s) // step), []).append(t)
+            k = max(i for i, p_ in enumerate(pts) if p_ <= tp[t])
+            groups.setdefault(k, []).append(t)
         return [groups[k] for k in sorted(groups)]
     per = pd.Timedelta(period)
     dur = pd.Timedelta(duration) if duration else None
@@ -134,6 +141,21 @@ def structure(tg, a_opt, opt, coarse, period, duration):
         if t in active:
             groups.setdefault((d_, sub), []).append(t)
     return [groups[k] for k in sorted(groups)]
+
+
+def coarse_groups(Pf, groups):
+    """for every variable of the coarse asset in the fine problem: the indices of the same variable over its coarse interval"""
+    kf = embed_lp.keymap(Pf)
+    fkeys = Pf.var_keys()
+    group_of = {t: gi for gi, g in enumerate(groups) for t in g}
+    out = {}
+    for i in range(Pf.n):
+        asset, vn, t, node = fkeys[i]
+        if asset == 'as':
+            g = groups[group_of[t]]
+            if len(g) > 1:
+                out[i] = [kf[(asset, vn, s_, node)] for s_ in g]
+    return out
 
 
 def maps(Po, Pf, groups, dt, opt):
@@ -232,6 +254,13 @@ def run_case(case_id, tier, seed, opt, kind, T, **kw):
                 newl[i] = z3.Sum([Pf.l[j] for j in idx]) / len(idx)
                 newu[i] = z3.Sum([Pf.u[j] for j in idx]) / len(idx)
             Pf.l, Pf.u = newl, newu
+        if opt == 'coarse':
+            # documented pricing of a coarse interval: the plain mean of the minor steps' prices (on uniform grids this is what the
+            # constant rate implies anyway; on irregular grids it is the stated convention)
+            newc = list(Pf.c)
+            for i, idx in coarse_groups(Pf, groups).items():
+                newc[i] = z3.Sum([Pf.c[j] for j in idx]) / len(idx)
+            Pf.c = newc
         embed_lp.embed(rec, P + '/option2fine', base, Po, x, Pf, M1.apply_sym(x), rel='==', info=dict(kind='emb', dir='option2fine'))
         # ---------- fine + equalities -> option
         y = Pf.mk_x('y')
@@ -308,6 +337,12 @@ def observe(case, kwargs, env, rq):
                 r[i] = 1.0; r[j] = -1.0
             rows.append(r)
         opf.l = l; opf.u = u
+        if opt == 'coarse':
+            c0 = np.asarray(opf.c, dtype=float).copy()
+            c1 = c0.copy()
+            for i, idx in coarse_groups(Pf, groups).items():
+                c1[i] = float(np.mean(c0[idx]))
+            opf.c = c1
         if rows:
             opf.A = sp.vstack((opf.A, sp.csr_matrix(np.vstack(rows))))
             opf.b = np.hstack((opf.b, np.zeros(len(rows))))
